@@ -76,6 +76,27 @@ def triggers(case):
                     for o in p['objs']:
                         if o['m']['k'] == 'const' and any(o.get(k) and o[k]['k'] != 'const' for k in ('lang', 'dt')):
                             out.add('all-constant-dynamic-langdt')
+    if not case['cfg'].get('nquads') and any(role == 'graph' and m['k'] == 'exec' for role, m, o in _tmaps(case)):
+        out.add('ntriples-graph-function')
+    # a rule without any reference that is not all-constant (a function over constants): the reader is asked for no column
+    execs = {e['id']: e for e in case.get('execs', [])}
+    def has_ref(m, depth=0):
+        if m['k'] in ('ref', 'templ', 'quoted', 'parent'):
+            return m['k'] != 'templ' or '{' in m['v']
+        if m['k'] == 'exec' and depth < 5:
+            e = execs.get(m['v'])
+            return e is None or any(k in ('ref', 'templ') or (k == 'exec' and has_ref({'k': 'exec', 'v': v}, depth + 1)) for _, k, v in e['inputs'])
+        return False
+    if execs:
+        for t in case['doc']:
+            for p in t.get('poms', []):
+                for pm in p['preds']:
+                    for o in p['objs']:
+                        gs = (p.get('graphs', []) + t.get('sgraphs', [])) or [None]
+                        for g in gs:
+                            maps = [t['subj'], pm, o['m']] + ([g] if g else []) + [x for x in (o.get('lang'), o.get('dt')) if x]
+                            if not any(has_ref(m) for m in maps) and any(m['k'] == 'exec' for m in maps):
+                                out.add('no-reference-rule')
     if any(c in WORKING or c.startswith('parent_') or c.startswith('keep_subject') for c in cols):
         out.add('reserved-column')
     if any('{' in c or '}' in c or '\\' in c for c in cols):
